@@ -215,7 +215,9 @@ def pool_getter(ctx, obj, n):
             v = obj.__dict__.get(f"n{d}")
             dig = (-v) % 13 if isinstance(v, int) and v < 0 else 0
         else:
-            v = getattr(obj, f"n{d}", None)
+            v = obj.__dict__.get(f"n{d}")
+            if v is None and kind == "plain":
+                v = md["d"]  # class-level value
             if v is None:
                 dig = 0
             elif isinstance(v, list):
@@ -330,7 +332,12 @@ def apply_op(ctx, insts, i, inplace, op):
         return f"new {len(insts) - 1}"
 
     if kind == "read":
-        return "val " + show_val(getattr(x, f"n{op[1]}"))
+        v = getattr(x, f"n{op[1]}")
+        if not isinstance(v, (int, list)):
+            # `n: int = Attr(invalidated_by=...)` leaves the MISSING sentinel on the class: an unset attribute
+            # then reads as MISSING instead of raising (C08's business); canonicalised to AttributeError here
+            raise AttributeError(f"n{op[1]}")
+        return "val " + show_val(v)
     if kind == "set":
         setattr(x, f"n{op[1]}", parse_val(op[2]))
         return "ok"
@@ -367,15 +374,18 @@ def apply_op(ctx, insts, i, inplace, op):
     raise ValueError(op)
 
 
-def op_targets(case, op):
-    """names the op mutates when it succeeds (property text: assignment, deletion or any helper)"""
+def op_targets(case, op, held):
+    """names the op mutates when it succeeds (property text: assignment, deletion or any helper).
+    `held` = names present in the receiver's __dict__ before the call: `reset()` deletes every managed
+    attribute, which changes nothing for one that has neither a value nor a default."""
     k = op[0]
     if k == "read":
         return set()
     if k in ("upd", "tfm"):
         return {p[0] for p in op[1]}
     if k == "reset":
-        return set(managed_names(case))
+        mem = members_of(case)
+        return {n for n in managed_names(case) if resettable(mem[n]) or n in held}
     return {op[1]}
 
 
@@ -414,9 +424,10 @@ def run_case(case, observer=None):
 
     def one(i, inplace, op, where):
         ctx.log.clear()
-        if i >= len(insts):
+        if not insts:
             lines.append("err IndexError ;; calls=- ;; " + show_world(ctx, insts))
             return
+        i = i % len(insts)
         step = {"i": i, "inplace": inplace, "op": op, "where": where}
         if observer:
             observer("before", ctx, insts, step)
@@ -607,7 +618,7 @@ def oracle_raw(case):
             if len(insts) != before["n"]:
                 viol.append(f"{label}: failed but an instance appeared")
         else:
-            targets = op_targets(case, op)
+            targets = op_targets(case, op, set(recv_before))
             result = insts[-1] if len(insts) > before["n"] else insts[i]
             res_after = _snap(ctx, result)
             if result is not insts[i]:
@@ -624,20 +635,20 @@ def oracle_raw(case):
                     if m["kind"] == "prop":
                         if t in res_after:
                             viol.append(
-                                f"{label}: dep=n{t} still holds {res_after[t]} after its dependency n{sorted(hit)[0]} was mutated"
+                                f"{label}: dep=n{t} still holds {res_after[t]} after a dependency was mutated via={sorted(hit)}"
                             )
                         else:
                             got, called = _read_on_clone(ctx, result, t)
                             want = _recompute(ctx, result, t)
                             if not called or got != want:
-                                viol.append(f"{label}: dep=n{t} next read gave {got} (getter called={called}), current state gives {want}")
+                                viol.append(f"{label}: dep=n{t} next read gave {got} (getter called={called}), current state gives {want} via={sorted(hit)}")
                     elif m["kind"] in ("attr", "list"):
                         dv = [] if m["kind"] == "list" else m["d"]
                         if res_after.get(t, "<gone>") != dv:
-                            viol.append(f"{label}: dep=n{t} is {res_after.get(t, '<gone>')}, not back at its default {dv}")
+                            viol.append(f"{label}: dep=n{t} is {res_after.get(t, '<gone>')}, not back at its default {dv} via={sorted(hit)}")
                     else:
                         if t in res_after:
-                            viol.append(f"{label}: dep=n{t} (no default) still holds {res_after[t]}")
+                            viol.append(f"{label}: dep=n{t} (no default) still holds {res_after[t]} via={sorted(hit)}")
                 else:
                     # unrelated mutation: nothing discarded
                     if t in recv_before and res_after.get(t, "<gone>") != recv_before[t]:
@@ -655,24 +666,37 @@ def oracle_raw(case):
 
 def plain_subclass_dependant(case, violation):
     """KF-C11-plain-subclass: every complaint is about a dependant declared in an undecorated subclass
-    (or about a property further down a chain that starts at such a dependant)."""
+    of the last spec class, or about a name downstream of one whose mutated dependencies (`via=`) reach
+    it only through such a dependant (the library's map has no entry for it, so the chain is cut there)."""
+    import re
+
     pp = plain_prefix_names(case)
     mem = members_of(case)
     bad = {n for n in pp if mem[n].get("inv")}
-    if not bad:
+    if not bad or violation == ["correspondence"]:
         return False
-    if violation == ["correspondence"]:
-        return False
-    import re
-
     r = reach(case)
     tainted = set(bad)
     for b in bad:
         tainted |= r.get(b, set())
-    # only dependants declared in plain subclasses themselves are never invalidated by the library
+    # the graph the library actually uses: declarations of `bad` contribute nothing
+    code_case = copy.deepcopy(case)
+    for cl in code_case["classes"]:
+        for m in cl["members"]:
+            if m["n"] in bad:
+                m["inv"] = []
+    anc_code = ancestors(code_case)
     for line in violation:
         m = re.search(r"dep=n(\d+)", line)
-        if not m or int(m.group(1)) not in bad:
+        if not m:
+            return False
+        t = int(m.group(1))
+        if t in bad:
+            continue
+        if t not in tainted:
+            return False
+        via = re.search(r"via=\[([0-9, ]*)\]", line)
+        if via and any(int(x) in anc_code[t] for x in via.group(1).split(",") if x.strip()):
             return False
     return True
 
@@ -741,8 +765,15 @@ def fixed_graphs():
     g.append(graph((S, [mk(0, "attr"), mk(1, "propC", ["*"]), mk(2, "propC", ["*"]), mk(3, "propU", [1])])))
     g.append(graph((S, [mk(0, "attr"), mk(1, "attr", ["*"]), mk(2, "list"), mk(3, "plainnc")])))
     g.append(graph((S, [mk(0, "attr"), mk(1, "propA", [0, "*"]), mk(2, "propA", [1]), mk(3, "attrnd", [2])])))
+    # collection dependencies: in-place element helpers re-assign the very same list object
+    g.append(graph((S, [mk(0, "list"), mk(1, "attr", [0]), mk(2, "propC", [1]), mk(3, "propU", ["*"])])))
+    g.append(graph((S, [mk(0, "list"), mk(1, "propU", [0]), mk(2, "propC", [1]), mk(3, "attr", [2])])))
+    g.append(graph((S, [mk(0, "list"), mk(1, "list", [0]), mk(2, "propA", [1]), mk(3, "attrnd", [0])])))
     # property cycles (allowed: no default on the cycle)
     g.append(graph((S, [mk(0, "attr"), mk(1, "propC", [0, 2]), mk(2, "propC", [1]), mk(3, "propA", [2])])))
+    # a cycle of explicit dependencies next to a wildcard dependant (the wildcard set must be unioned at every level)
+    g.append(graph((S, [mk(0, "attr"), mk(1, "propC", [0, 2]), mk(2, "propC", [1]), mk(3, "propC", ["*"])])))
+    g.append(graph((S, [mk(0, "attr"), mk(1, "propU", [0, 2]), mk(2, "attrnd", [1]), mk(3, "propA", ["*"])])))
     # diamond
     g.append(graph((S, [mk(0, "attr"), mk(1, "propU", [0]), mk(2, "propC", [0]), mk(3, "propC", [1, 2])])))
     # inheritance: dependants added in a spec subclass
@@ -829,16 +860,14 @@ def grammar3():
 
 
 def random_op(rng, case, ninst, hist_bias=None):
+    """[instance index (taken modulo the number of live instances on both sides), inplace, op]"""
     mem = members_of(case)
     names = sorted(mem)
-    managed = set(managed_names(case))
+    managed = sorted(managed_names(case))
     props = [n for n in names if mem[n]["kind"] == "prop"]
-    i = rng.randrange(ninst)
-    inplace = rng.random() < 0.6 or ninst >= 4
-    r = rng.random()
-    n = rng.choice(names)
-    m = mem[n]
-    is_prop = m["kind"] == "prop"
+    lists = [x for x in managed if mem[x]["kind"] == "list"]
+    i = rng.randrange(4)
+    inplace = rng.random() < 0.6
 
     def good_val(n):
         k = mem[n]["kind"]
@@ -853,38 +882,123 @@ def random_op(rng, case, ninst, hist_bias=None):
             return "bad"
         return good_val(n)
 
-    if r < 0.30 and props:
-        return [i, True, ["read", rng.choice(props)]]
-    if r < 0.36:
-        return [i, True, ["read", n]]
-    if r < 0.52:
-        return [i, True, ["set", n, some_val(n)]]
-    if r < 0.60:
-        return [i, True, ["del", n]]
-    if n in managed:
-        if r < 0.72:
-            return [i, inplace, [rng.choice(["with", "with", "withu"]), n, some_val(n)]]
-        if r < 0.79:
-            fn = "bad" if rng.random() < 0.12 else ("neg" if is_prop else "inc")
-            return [i, inplace, ["tf", n, fn]]
-        if r < 0.85:
-            return [i, inplace, ["rst", n]]
-        if r < 0.91:
-            ks = rng.sample(sorted(managed), min(len(managed), rng.choice([1, 1, 2])))
-            if rng.random() < 0.5:
-                return [i, inplace, ["upd", [[k, some_val(k)] for k in ks]]]
-            return [i, inplace, ["tfm", [[k, "bad" if rng.random() < 0.1 else ("neg" if mem[k]["kind"] == "prop" else "inc")] for k in ks]]]
-        if r < 0.94:
-            return [i, inplace, ["reset"]]
-    lists = [x for x in names if mem[x]["kind"] == "list" and x in managed]
+    def fn_for(n):
+        if rng.random() < 0.12 and mem[n]["kind"] != "list":
+            return "bad"
+        return "neg" if mem[n]["kind"] == "prop" else "inc"
+
+    kinds = ["read"] * 28 + ["readany"] * 4 + ["set"] * 18 + ["del"] * 8
+    if managed:
+        kinds += ["with"] * 12 + ["tf"] * 7 + ["rst"] * 6 + ["upd"] * 4 + ["tfm"] * 4 + ["reset"] * 3
     if lists:
-        l = rng.choice(lists)
-        ek = rng.choice(["app", "app", "ins", "rem", "remi", "tfi"])
-        arg = "bad" if ek in ("app", "ins") and rng.random() < 0.15 else rng.randint(0, 3 if ek in ("remi", "tfi") else 9)
-        return [i, inplace, ["elem", l, ek, arg]]
-    if props:
-        return [i, True, ["read", rng.choice(props)]]
+        kinds += ["elem"] * 16
+    for _ in range(20):
+        k = rng.choice(kinds)
+        if k == "read" and props:
+            return [i, True, ["read", rng.choice(props)]]
+        if k == "readany":
+            return [i, True, ["read", rng.choice(names)]]
+        if k == "set":
+            n = rng.choice(names)
+            return [i, True, ["set", n, some_val(n)]]
+        if k == "del":
+            return [i, True, ["del", rng.choice(names)]]
+        if k == "with":
+            n = rng.choice(managed)
+            return [i, inplace, [rng.choice(["with", "with", "withu"]), n, some_val(n)]]
+        if k == "tf":
+            n = rng.choice(managed)
+            return [i, inplace, ["tf", n, fn_for(n)]]
+        if k == "rst":
+            return [i, inplace, ["rst", rng.choice(managed)]]
+        if k == "upd":
+            ks = rng.sample(managed, min(len(managed), rng.choice([1, 1, 2, 3])))
+            return [i, inplace, ["upd", [[x, some_val(x)] for x in ks]]]
+        if k == "tfm":
+            ks = rng.sample(managed, min(len(managed), rng.choice([1, 1, 2, 3])))
+            return [i, inplace, ["tfm", [[x, fn_for(x)] for x in ks]]]
+        if k == "reset":
+            return [i, inplace, ["reset"]]
+        if k == "elem":
+            l = rng.choice(lists)
+            ek = rng.choice(["app", "app", "ins", "rem", "remi", "tfi"])
+            arg = "bad" if ek in ("app", "ins") and rng.random() < 0.15 else rng.randint(0, 3 if ek in ("remi", "tfi") else 9)
+            return [i, inplace, ["elem", l, ek, arg]]
+    n = rng.choice(names)
     return [i, True, ["set", n, some_val(n)]]
+
+
+def root_mutations(rng, case, root):
+    """every way of mutating `root` that the API offers for its kind: [inplace, op]"""
+    mem = members_of(case)
+    m = mem[root]
+    managed = set(managed_names(case))
+    k = m["kind"]
+
+    def val():
+        if k == "prop":
+            return -rng.randint(1, 9)
+        if k == "list":
+            return [rng.randint(0, 9) for _ in range(rng.randint(0, 3))]
+        return rng.randint(0, 9)
+
+    out = [[True, ["set", root, val()]], [True, ["del", root]]]
+    if root in managed:
+        for ip in (True, False):
+            out += [[ip, ["with", root, val()]], [ip, ["withu", root, val()]], [ip, ["rst", root]],
+                    [ip, ["tf", root, "neg" if k == "prop" else "inc"]], [ip, ["upd", [[root, val()]]]],
+                    [ip, ["tfm", [[root, "neg" if k == "prop" else "inc"]]]], [ip, ["reset"]]]
+            if k == "list":
+                out += [[ip, ["elem", root, ek, rng.randint(0, 2)]] for ek in ("app", "ins", "rem", "remi", "tfi")]
+    return out
+
+
+def patterned_history(rng, graph_case, rounds):
+    """Repeated mutations of the same root, each through another entry point, with reads, overrides and
+    deletions of the links in between (state leaking from one call to the next shows on the SECOND round)."""
+    case = random_history(rng, graph_case, 0)
+    mem = members_of(case)
+    r = reach(case)
+    roots = [n for n in sorted(mem) if r.get(n)]
+    if not roots:
+        return random_history(rng, graph_case, 3 * rounds)
+    root = rng.choice(roots)
+    down = sorted(r[root])
+    props = [n for n in down if mem[n]["kind"] == "prop"]
+    ops = []
+    copies = 0
+    cur = 0  # index of the instance the pattern follows
+    ninst = 1
+    for _ in range(rounds):
+        for p in rng.sample(props, len(props)) if rng.random() < 0.8 else props[:1]:
+            ops.append([cur, True, ["read", p]])
+        # set a non-default value on a defaulted dependant, override / delete a link
+        for d in down:
+            md = mem[d]
+            x = rng.random()
+            if md["kind"] in ("attr",) and x < 0.5:
+                ops.append([cur, True, ["set", d, rng.randint(0, 9)]])
+            elif md["kind"] == "prop" and md.get("o") and x < 0.2:
+                ops.append([cur, True, ["set", d, -rng.randint(1, 9)]])
+            elif md["kind"] == "prop" and x < 0.35:
+                ops.append([cur, True, ["del", d]])
+        ip, op = rng.choice(root_mutations(rng, case, root))
+        if not ip and copies >= 3:
+            ip = True
+        ops.append([cur, ip, op])
+        if not ip:
+            copies += 1
+            ninst += 1
+            if rng.random() < 0.6:
+                cur = ninst - 1  # follow the copy (if the call failed the modulo keeps the index valid)
+        if rng.random() < 0.3:
+            ops.append(random_op(rng, case, 1))
+            if not ops[-1][1]:
+                ops[-1][1] = True
+    for p in props:
+        ops.append([cur, True, ["read", p]])
+    case["ops"] = ops
+    return case
 
 
 def random_history(rng, graph_case, length, with_post=None):
@@ -917,16 +1031,16 @@ def random_history(rng, graph_case, length, with_post=None):
                     post.append(op)
     case["post"] = post
     ops = []
-    ninst = 1
+    copies = 0
     for _ in range(length):
-        i, inplace, op = random_op(rng, case, ninst)
+        i, inplace, op = random_op(rng, case, 1)
         if op[0] in ("read", "set", "del"):
             inplace = True
-        ops.append([i, inplace, op])
         if not inplace:
-            ninst += 1  # optimistic; a failed copy leaves the index unused (IndexError lines on both sides)
-            ninst = min(ninst, 4)
-    # instance indices must exist on both sides even when a copy failed: keep optimistic indices, both sides answer IndexError
+            copies += 1
+            if copies > 3:  # at most 4 live instances
+                inplace = True
+        ops.append([i, inplace, op])
     case["ops"] = ops
     return case
 
@@ -937,33 +1051,48 @@ def gen_cases(tier, rng):
     if tier == "search":
         while True:
             g = rng.choice(fixed) if rng.random() < 0.3 else random_graph(rng, rng.choice([2, 3, 4, 4]), allow_plain=_REGISTERED)
-            yield random_history(rng, g, rng.randint(4, 14))
+            if rng.random() < 0.35:
+                yield patterned_history(rng, g, rng.randint(2, 4))
+            else:
+                yield random_history(rng, g, rng.randint(4, 14))
         return
     if tier == "quick":
         for g in fixed:
-            for _ in range(8):
+            for _ in range(12):
                 c = random_history(rng, g, rng.randint(8, 14))
                 c["origin"] = "fixed"
                 yield c
-        for g in plain:
             for _ in range(6):
+                c = patterned_history(rng, g, rng.randint(2, 4))
+                c["origin"] = "fixed-patterned"
+                yield c
+        for g in plain:
+            for _ in range(8):
                 c = random_history(rng, g, rng.randint(8, 14))
                 c["origin"] = "plain-subclass"
                 yield c
-        for _ in range(220):
+        for k in range(1800):
             g = random_graph(rng, rng.choice([2, 3, 4, 4, 4]), allow_plain=True)
-            c = random_history(rng, g, rng.randint(8, 14))
-            c["origin"] = "random"
+            if k % 3 == 2:
+                c = patterned_history(rng, g, rng.randint(2, 4))
+                c["origin"] = "random-patterned"
+            else:
+                c = random_history(rng, g, rng.randint(8, 14))
+                c["origin"] = "random"
             yield c
         return
     # thorough
     for g in fixed:
-        for _ in range(40):
+        for _ in range(60):
             c = random_history(rng, g, rng.randint(12, 24))
             c["origin"] = "fixed"
             yield c
+        for _ in range(30):
+            c = patterned_history(rng, g, rng.randint(3, 6))
+            c["origin"] = "fixed-patterned"
+            yield c
     for g in plain:
-        for _ in range(25):
+        for _ in range(40):
             c = random_history(rng, g, rng.randint(12, 24))
             c["origin"] = "plain-subclass"
             yield c
@@ -971,10 +1100,17 @@ def gen_cases(tier, rng):
         c = random_history(rng, g, rng.randint(10, 16))
         c["origin"] = "grammar3"
         yield c
-    for _ in range(2500):
+        c = patterned_history(rng, g, rng.randint(2, 4))
+        c["origin"] = "grammar3-patterned"
+        yield c
+    for k in range(6000):
         g = random_graph(rng, 4, allow_plain=True)
-        c = random_history(rng, g, rng.randint(12, 24))
-        c["origin"] = "random4"
+        if k % 3 == 2:
+            c = patterned_history(rng, g, rng.randint(3, 6))
+            c["origin"] = "random4-patterned"
+        else:
+            c = random_history(rng, g, rng.randint(12, 24))
+            c["origin"] = "random4"
         yield c
 
 
